@@ -481,6 +481,79 @@ def run_masked(ctx, case):
     ctx.case(case, bool(idx), labels=[t, f"masked:{FIELDS[t][fi][0]}", layout, "under=" + under])
 
 
+def _same_size_pairs():
+    """pairs of valid blocks of ONE type that encode to the same number of bytes in DIFFERENT storage formats (3D data with an empty link table and
+    n full frames / without links, n+1 frames, one gap: the second run table entry weighs what the link header does)"""
+    out = []
+    for n in (1, 4, 10):
+        vals = specs._vals(5, n + 1, 3)
+        a = {"t": "data3D", "format": 1, "nFrames": n, "frequency": 100, "startTime": 0, "volume": [0] * 3, "rot": [0] * 9, "trans": [0] * 3, "flag": 0, "links": [],
+             "tracks": [{"label": "m", "frames": vals[:n]}]}
+        gap = (n + 1) // 2
+        b = {"t": "data3D", "format": 2, "nFrames": n + 1, "frequency": 100, "startTime": 0, "volume": [0] * 3, "rot": [0] * 9, "trans": [0] * 3, "flag": 0, "links": None,
+             "tracks": [{"label": "m", "frames": [v if i != gap else None for i, v in enumerate(vals)]}]}
+        if n >= 2 and len(reftdf.encode(a)) == len(reftdf.encode(b)):
+            out.append((a, b))
+    return out
+
+
+def enum_same_size(tier):
+    for i, _ in enumerate(_same_size_pairs()):
+        for direction in ("1->2", "2->1"):
+            for via in ("replace_block", "setter"):
+                for position in ("only", "first", "last"):
+                    yield {"pair": i, "direction": direction, "via": via, "position": position}
+
+
+def run_same_size(ctx, case):
+    from basictdf import Tdf
+    from basictdf.tdfBlock import BlockType
+
+    a, b = _same_size_pairs()[case["pair"]]
+    if case["direction"] == "2->1":
+        a, b = b, a
+    ev = {"type": reftdf.TYPE_CODE["events"], "format": 1, "payload": reftdf.encode({"t": "events", "format": 1, "startTime": 0, "events": []}), "comment": "other", "cdate": 1, "mdate": 2}
+    mine = {"type": reftdf.TYPE_CODE["data3D"], "format": a["format"], "payload": reftdf.encode(a), "comment": "mine", "cdate": 1, "mdate": 2}
+    image = reftdf.build_image(4, {"only": [mine], "first": [mine, ev], "last": [ev, mine]}[case["position"]])
+    d = env.fresh_dir()
+    try:
+        path = os.path.join(d, "f.tdf")
+        with open(path, "wb") as f:
+            f.write(image)
+        code = reftdf.TYPE_CODE["data3D"]
+
+        def history():
+            with Tdf(path).allow_write() as w:
+                blk = specs.build(b)
+                if case["via"] == "setter":
+                    w.data3D = blk
+                else:
+                    w.replace_block(blk)
+                same = specs.extract(w.get_block(BlockType(code)))
+                pos = w.handler.tell()
+            with Tdf(path) as r:
+                again = specs.extract(r.get_block(BlockType(code)))
+            return same, pos, again
+        ok, res = ctx.must(history, "same-size/replace-and-read", f"replacing a 3D block by one of the same byte size in the other storage format ({case['direction']}) and reading it back")
+        if ok:
+            same, pos, again = res
+            data = open(path, "rb").read()
+            e = [e for _, e in reftdf.live(reftdf.parse_container(data)) if e["type"] == code][0]
+            if e["format"] != b["format"] or e["size"] != len(reftdf.encode(b)):
+                ctx.fail("same-size/entry-format-or-size", f"after the replacement the entry says format {e['format']}, size {e['size']}; the block stored is format {b['format']}, "
+                                                           f"{len(reftdf.encode(b))} bytes")
+            if pos != e["offset"] + e["size"]:
+                ctx.fail("same-size/consumed-vs-entry-size", f"reading the block back in the same session left the handle at {pos}; the entry says {e['offset']}+{e['size']}")
+            for which, got in (("same-session", same), ("reopened", again)):
+                dd = specs.first_diff(got, specs.canon(b))
+                if dd:
+                    ctx.fail(f"same-size/{which}-content", f"3D block replaced by one of the same size in the other format: read back ({which}) {dd[0]} is {str(dd[1])[:50]}, stored "
+                                                           f"{str(dd[2])[:50]}")
+    finally:
+        env.rmdir(d)
+    ctx.case(case, True, labels=["same-size-other-format", case["direction"], case["via"], case["position"]])
+
+
 def enum_read_orders(tier):
     """files that hold blocks the library cannot decode between blocks it can: inside ONE context the blocks are read in every order,
     the undecodable ones included (their read fails - the usual 'catch and skip' loop); every successful read consumes exactly its entry"""
@@ -577,6 +650,10 @@ SUBS = [
         rule="EMG / 3D data / 3D force / platform data with ONE sample array handed over as a numpy MaskedArray (gaps expressed by the mask: none, first, last, a run, both ends, "
              "alternating, all but one, all frames) x what lies under the mask (finite values, NaN, mixed) x the other fields plain or NaN at the same frames: declared = "
              "written = consumed, for the block and for the item; finite, enumerated", nontrivial_required=False),
+    Sub("same-size-other-format", run_same_size, kind="enum", enumerate=enum_same_size, shards=(2, 4),
+        rule="3D blocks of the same encoded size in the two storage formats (empty link table + n full frames / no links + n+1 frames with one gap), one stored, replaced by the "
+             "other (replace_block / setter; only / first / last block), read back in the same session and after reopening: entry format and size, bytes consumed, content; "
+             "finite, enumerated", nontrivial_required=False),
     Sub("container-read-orders", run_read_orders, kind="enum", enumerate=enum_read_orders, shards=(4, 8),
         rule="files holding undecodable block types before / between / behind decodable ones, read inside ONE context in every order of up to three entries (by index / by "
              "type, first entry once more at the end); the reads of undecodable blocks fail and are skipped; after every successful read the handle stands at offset + size, "
